@@ -1,7 +1,6 @@
 package main
 
 import (
-	"go/ast"
 	"go/token"
 	"go/types"
 
@@ -178,43 +177,8 @@ func reflectTypeOfArg(v ssa.Value) types.Type {
 // always looked up first, so a registration for the element type is honoured.
 
 func ruleSliceWrapOnly(c *Ctx) {
-	p := c.P
-	fn, ks := p.kindSwitch()
-	_, ws := p.wireSwitch()
-	if ks == nil || ws == nil {
-		c.Oblige("T.slicewrap.only", false, token.NoPos, "plenc.Plenc.CodecForTypeRegistry", "slice clause", "cannot locate the kind switch / element wire type switch", nil)
-		return
-	}
-	info := fn.Pkg.TypesInfo
-	var clause *ast.CaseClause
-	for _, st := range ks.Body.List {
-		cc := st.(*ast.CaseClause)
-		if cc.Pos() <= ws.Pos() && ws.End() <= cc.End() {
-			clause = cc
-		}
-	}
-	if clause == nil {
-		c.Oblige("T.slicewrap.only", false, ks.Pos(), fn.Name(), "slice clause", "the element wire type switch is not inside a clause of the kind switch", nil)
-		return
-	}
-	var outside []string
-	ast.Inspect(clause, func(n ast.Node) bool {
-		if n == ast.Node(ws) {
-			return false
-		}
-		if cl, ok := n.(*ast.CompositeLit); ok {
-			if nt := namedOf(info.TypeOf(cl)); nt != nil && inModule(nt.Obj().Pkg()) {
-				if types.Implements(nt, p.CodecIf) || types.Implements(types.NewPointer(nt), p.CodecIf) {
-					outside = append(outside, nt.Obj().Name())
-				}
-			}
-		}
-		return true
-	})
-	c.Oblige("T.slicewrap.only", len(outside) == 0, clause.Pos(), fn.Name(), "a slice codec is chosen only by the element's wire type",
-		"the element codec is looked up through the registry and the wrapper follows from its wire type; a codec placed directly for some element kind bypasses a codec registered for the element type"+
-			map[bool]string{true: "", false: ": codec literal(s) outside the wire type switch: " + joinStrs(outside)}[len(outside) == 0], nil)
-	c.Floor("T.slicewrap.only", 1)
+	// since the FEAS formulation T.slicewrap itself demands that no other codec
+	// is live for a slice: nothing left to do here
 }
 
 func joinStrs(s []string) string {
@@ -668,12 +632,18 @@ func ruleReadLookup(c *Ctx) {
 				return n > 0
 			}
 			if ph, ok := fa.X.(*ssa.Phi); ok {
+				// d = nil or &fieldsByIndex[index]: the nil edge cannot be the one dereferenced
+				n := 0
 				for _, e := range ph.Edges {
+					if isNilConst(e) {
+						continue
+					}
 					if !entryAddr(e) {
 						return false
 					}
+					n++
 				}
-				return len(ph.Edges) > 0
+				return n > 0
 			}
 		case *ssa.Field:
 			return fromTable(x.X, depth+1)
@@ -727,4 +697,63 @@ func reachingStores(al *ssa.Alloc, use ssa.Instruction) []*ssa.Store {
 	}
 	walk(ub, idx)
 	return out
+}
+
+// ---------------------------------------------------------------------------
+// T.key.self: CodecForTypeRegistry looks up and files the codec under the
+// (typ, tag) it was asked for - the arguments of registry.Load and
+// registry.StoreOrSwap are the function's own parameters, unchanged. A tag that
+// is "consumed" on the way files a proto-form codec under the plain key, and
+// the bytes then depend on which field was built first.
+
+func ruleKeySelf(c *Ctx) {
+	p := c.P
+	name := "plenc.Plenc.CodecForTypeRegistry"
+	f := p.ssaFunc(name)
+	if f == nil {
+		c.Oblige("T.key.self", false, token.NoPos, name, "function", "not found", nil)
+		return
+	}
+	var typP, tagP *ssa.Parameter
+	for _, prm := range f.Params {
+		switch {
+		case typeStr(prm.Type()) == "reflect.Type" || typeName(prm.Type()) == "Type":
+			if typP == nil {
+				typP = prm
+			}
+		case isStringType(prm.Type()):
+			tagP = prm
+		}
+	}
+	n := 0
+	for _, b := range f.Blocks {
+		for _, in := range b.Instrs {
+			call, ok := in.(*ssa.Call)
+			if !ok || !call.Common().IsInvoke() {
+				continue
+			}
+			m := call.Common().Method.Name()
+			if m != "Load" && m != "StoreOrSwap" && m != "Store" {
+				continue
+			}
+			if typeName(call.Common().Value.Type()) != "CodecRegistry" {
+				continue
+			}
+			args := call.Common().Args
+			if len(args) < 2 {
+				continue
+			}
+			n++
+			good := typP != nil && tagP != nil && args[0] == ssa.Value(typP) && args[1] == ssa.Value(tagP)
+			c.Oblige("T.key.self", good, call.Pos(), name, "registry."+m+"(typ, tag, …) with the function's own typ and tag",
+				"the codec is looked up and stored under exactly the (type, tag) that was asked for; a tag or type changed on the way files the codec under another key", nil)
+		}
+	}
+	c.Floor("T.key.self", 2)
+	_ = n
+}
+
+func isStringType(t types.Type) bool {
+	b, ok := t.Underlying().(*types.Basic)
+	return ok && b.Kind() == types.String
 }
